@@ -1012,7 +1012,23 @@ func newData(c *Ctx) func(string) string {
 			if da != db {
 				c.Violation("restart-dependent:hll-del-reply", fmt.Sprintf("pfwin %s/%s: DEL of a HyperLogLog that is only in the write-back cache answers %d, of a flushed one %d", kv["eng"], kv["pol"], da, db))
 			}
-			return fmt.Sprintf("del=%d/%d count=%d/%d later=%d/%d", da, db, ca, cb, la, lb)
+			// the same for a plain SET over the key: it must win, flushed before or not
+			runSet := func(key string, flush bool) string {
+				k := []byte(key)
+				n.kv.PFAdd(ts, k, []byte("e1"))
+				if flush {
+					n.kv.VerifFlushHLL()
+				}
+				n.kv.KVSet(ts+1, k, []byte("v"))
+				n.kv.VerifFlushHLL()
+				v, _ := n.kv.KVGet(k)
+				return hexs(v)
+			}
+			ga, gb := runSet("t:pfwin-c", false), runSet("t:pfwin-d", true)
+			if ga != gb {
+				c.Violation("restart-dependent:hll-set", fmt.Sprintf("pfwin %s/%s: PFADD k e1; SET k v; GET k answers %.40s… after the next flush of the cache when the HyperLogLog was only in the write-back cache at the SET (the flush writes the sketch over the later SET), %s when it had been flushed before the SET: the same log leaves different data", kv["eng"], kv["pol"], ga, gb))
+			}
+			return fmt.Sprintf("del=%d/%d count=%d/%d later=%d/%d set=%v", da, db, ca, cb, la, lb, ga == gb)
 		}
 		if f[0] == "end" {
 			if s != nil {
